@@ -7,10 +7,11 @@ from ..genmod import Builder
 EXTRA = ["COMMAND", "exe", "${exe}", '"my exe"', "--x", "WORKING_DIRECTORY", "${CMAKE_BINARY_DIR}", "CONFIGURATIONS", "Debug",
          "MYNAME", "NAME_X", "XNAME", "EXPECTFAILURE", "NOEXPECTFAIL", "COMMAND_EXPAND_LISTS", "-DNAME=1", '"NAME"',
          "[[NAME]]", "a;b", "name_", "expectfail_", "$<TARGET_FILE:t>", '"printf \'%s|%s\'  a   b"', '"tab\there"', "[[two  blanks  inside]]",
-         '"  leading and trailing  "', "fail", "expect", "T", "x"]
+         '"  leading and trailing  "', "fail", "expect", "T", "x", "a", "me", "NAM", "ame"]
 CT_EXTRA = ["PRINT_ERRORS", "5", "MYNAME", "EXPECTFAILURE", "XEXPECTFAIL", "${opt}", '"EXPECTFAIL"', "[[EXPECTFAIL]]", "LABEL",
-            "fail", "expect", "E", "IL", "T", "x", "pectf", "Fail"]
-FRAGMENT_NAMES = ["fail", "expect", "t", "x", "EXPECT", "pectf", "Fail", "e", "il", "EXPECTFAI"]
+            "fail", "expect", "E", "IL", "T", "x", "pectf", "Fail", "a", "me", "NAM", "am"]
+FRAGMENT_NAMES = ["fail", "expect", "t", "x", "EXPECT", "pectf", "Fail", "e", "il", "EXPECTFAI", "a", "m", "n", "am", "me", "na",
+                  "nam", "ame", "Me", "NAM", "AME"]
 
 
 class TBuilder(Builder):
